@@ -57,6 +57,9 @@ func newAdv(e *Engine) *Adv {
 }
 
 func (a *Adv) soupDependent() bool {
+	if a.e.Cfg.Eager {
+		return true
+	}
 	for _, p := range []string{"XT", "VC", "NV", "NVW", "NVH"} {
 		if a.on(p) {
 			return true
@@ -233,8 +236,44 @@ func (a *Adv) build(soup []Sent, t *LState) []int {
 		}
 	}
 	signers := append([]primitives.MemberId{}, a.byz...)
-	// ---- PC / OUT: PREPARE and COMMIT for proposals the target holds
-	for _, p := range t.Props {
+	// ---- PC / OUT: PREPARE and COMMIT for proposals the target holds (lazy, reduction R1) — in eager
+	// configurations also for every proposal visible anywhere (soup, alphabet), whether or not the target holds it
+	props := append([][2]string{}, t.Props...)
+	if e.Cfg.Eager {
+		have := map[[2]string]bool{}
+		for _, p := range props {
+			have[p] = true
+		}
+		addP := func(v uint64, hash string) {
+			k := [2]string{fmt.Sprint(v), hash}
+			if !have[k] && v <= e.Cfg.MaxView {
+				have[k] = true
+				props = append(props, k)
+			}
+		}
+		for _, s := range soup {
+			i := e.msg(int(s.Msg)).Info
+			if i.Hdr.Height != h {
+				continue
+			}
+			if i.Kind == ref.KPP {
+				addP(i.Hdr.View, i.Hdr.Hash)
+			} else if i.Kind == ref.KNV {
+				addP(i.PP.View, i.PP.Hash)
+			}
+		}
+		for v := uint64(0); v <= e.Cfg.MaxView; v++ {
+			for _, b := range a.byz {
+				if r.Leader(v) == string(b) {
+					for _, tag := range e.Cfg.Alphabet {
+						addP(v, fmt.Sprintf("%x", []byte(kit.HashOf(a.blockFor(h, tag)))))
+					}
+				}
+			}
+		}
+		sort.Slice(props, func(i, j int) bool { return props[i][0]+props[i][1] < props[j][0]+props[j][1] })
+	}
+	for _, p := range props {
 		var v uint64
 		fmt.Sscanf(p[0], "%d", &v)
 		hash := hexb(p[1])
